@@ -284,7 +284,7 @@ def blockAdd (env : Env) (s : State) (hash : Bytes) (height txcount : Nat) (trus
   let k := keyOf hash
   match AL.get s.index k with
   | none =>
-    let s := { s with index := AL.set s.index k { ipos := none, trusted := trusted } }
+    let s := { s with index := AL.set s.index k { ipos := none, trusted := trusted, olen := raw.length } }
     let s := addToCache s k raw
     let s := { s with datToWrite := s.datToWrite + raw.length,
                       queue := s.queue ++ [{ data := raw, idx := k, height := height, txcount := txcount % 2^32 }] }
